@@ -45,26 +45,7 @@ func resultType(c *ssa.CallCommon) types.Type {
 
 func (fr *Frame) callVals(c *ssa.CallCommon, fv *Val, args []*Val, argVals []ssa.Value, pos token.Pos) *Val {
 	res := fr.callVals1(c, fv, args, argVals, pos)
-	what := ""
-	if c.IsInvoke() {
-		what = ifaceMethodName(c)
-	} else if sc := c.StaticCallee(); sc != nil {
-		what = sc.String()
-	} else if fv != nil && fv.Fn != nil {
-		what = fv.Fn.String()
-	} else if c.Value != nil {
-		what = "dynamic " + c.Value.Name()
-		if u, ok := c.Value.(*ssa.UnOp); ok {
-			if g, ok := u.X.(*ssa.Global); ok {
-				what = "dynamic global " + g.Name()
-			}
-			if fa, ok := u.X.(*ssa.FieldAddr); ok {
-				if st, ok := deref(fa.X.Type()).Underlying().(*types.Struct); ok {
-					what = "dynamic field " + st.Field(fa.Field).Name()
-				}
-			}
-		}
-	}
+	what := callAnchorName(c, fv)
 	if what != "" {
 		bind := map[string]*Val{}
 		for i, a := range args {
@@ -91,14 +72,7 @@ func (fr *Frame) callVals1(c *ssa.CallCommon, fv *Val, args []*Val, argVals []ss
 	}
 	rt := resultType(c)
 	{
-		what := ""
-		if c.IsInvoke() {
-			what = ifaceMethodName(c)
-		} else if sc := c.StaticCallee(); sc != nil {
-			what = sc.String()
-		} else if fv != nil && fv.Fn != nil {
-			what = fv.Fn.String()
-		}
+		what := callAnchorName(c, fv)
 		if what != "" {
 			bind := map[string]*Val{}
 			for i, a := range args {
@@ -119,6 +93,9 @@ func (fr *Frame) callVals1(c *ssa.CallCommon, fv *Val, args []*Val, argVals []ss
 		fr.safety("nil", "invoke "+c.Method.Name(), pos, not(eq(sx("itag", recv.T), "0")))
 		if ic := vc.eng.ifaceContract(c); ic != nil {
 			fr.ifaceModSet = vc.eng.invokeModSet(c)
+			if strings.Count(ic.Key, ".") == 2 {
+				vc.externals["assumed contract of external interface "+ic.Key] = true
+			}
 			return fr.contractCall(ic, nil, append([]*Val{recv}, args...), rt, pos, name)
 		}
 		// closed-world dispatch over implementers with contracts is not attempted here:
@@ -705,4 +682,35 @@ func (fr *Frame) generatedGetter(callee *ssa.Function, args []*Val) *Val {
 		return v
 	}
 	return nil
+}
+
+// callAnchorName is the text an `assert call X` / `after call X` anchor is matched against:
+// the callee's full name for static and resolved calls (plus the field or variable a dynamic
+// call goes through), the interface method for invokes.
+func callAnchorName(c *ssa.CallCommon, fv *Val) string {
+	if c.IsInvoke() {
+		return ifaceMethodName(c)
+	}
+	if sc := c.StaticCallee(); sc != nil {
+		return sc.String()
+	}
+	what := ""
+	if fv != nil && fv.Fn != nil {
+		what = fv.Fn.String()
+	}
+	if c.Value != nil {
+		dyn := "dynamic " + c.Value.Name()
+		if u, ok := c.Value.(*ssa.UnOp); ok {
+			if g, ok := u.X.(*ssa.Global); ok {
+				dyn = "dynamic global " + g.Name()
+			}
+			if fa, ok := u.X.(*ssa.FieldAddr); ok {
+				if st, ok := deref(fa.X.Type()).Underlying().(*types.Struct); ok {
+					dyn = "dynamic field " + st.Field(fa.Field).Name()
+				}
+			}
+		}
+		what = strings.TrimSpace(what + " " + dyn)
+	}
+	return what
 }
